@@ -373,6 +373,13 @@ func (s *grpcServer) Write(srv bytestream.ByteStream_WriteServer) error {
 
 		for {
 			req, err := srv.Recv()
+			if err == io.EOF && firstIteration {
+				// The client closed the stream without sending anything: no
+				// Put was started, so nobody would ever answer putResult.
+				recvResult <- status.Error(codes.InvalidArgument,
+					"stream closed before the first WriteRequest")
+				return
+			}
 			if err == io.EOF {
 				if cmp == casblob.Identity && resp.CommittedSize != size {
 					msg := fmt.Sprintf("Unexpected amount of data read: %d expected: %d",
